@@ -40,9 +40,15 @@ Compiler/SrcMap.vos Compiler/SrcMap.vok Compiler/SrcMap.required_vos: Compiler/S
 Compiler/Compile.vo Compiler/Compile.glob Compiler/Compile.v.beautified Compiler/Compile.required_vo: Compiler/Compile.v Compiler/SrcMap.vo
 Compiler/Compile.vio: Compiler/Compile.v Compiler/SrcMap.vio
 Compiler/Compile.vos Compiler/Compile.vok Compiler/Compile.required_vos: Compiler/Compile.v Compiler/SrcMap.vos
-Properties/C06.vo Properties/C06.glob Properties/C06.v.beautified Properties/C06.required_vo: Properties/C06.v Compiler/Compile.vo
-Properties/C06.vio: Properties/C06.v Compiler/Compile.vio
-Properties/C06.vos Properties/C06.vok Properties/C06.required_vos: Properties/C06.v Compiler/Compile.vos
+Proofs/LexProofs.vo Proofs/LexProofs.glob Proofs/LexProofs.v.beautified Proofs/LexProofs.required_vo: Proofs/LexProofs.v Compiler/Lexer.vo
+Proofs/LexProofs.vio: Proofs/LexProofs.v Compiler/Lexer.vio
+Proofs/LexProofs.vos Proofs/LexProofs.vok Proofs/LexProofs.required_vos: Proofs/LexProofs.v Compiler/Lexer.vos
+Proofs/NoDeadlockProofs.vo Proofs/NoDeadlockProofs.glob Proofs/NoDeadlockProofs.v.beautified Proofs/NoDeadlockProofs.required_vo: Proofs/NoDeadlockProofs.v Compiler/Compile.vo Proofs/LexProofs.vo
+Proofs/NoDeadlockProofs.vio: Proofs/NoDeadlockProofs.v Compiler/Compile.vio Proofs/LexProofs.vio
+Proofs/NoDeadlockProofs.vos Proofs/NoDeadlockProofs.vok Proofs/NoDeadlockProofs.required_vos: Proofs/NoDeadlockProofs.v Compiler/Compile.vos Proofs/LexProofs.vos
+Properties/C06.vo Properties/C06.glob Properties/C06.v.beautified Properties/C06.required_vo: Properties/C06.v Compiler/Compile.vo Proofs/LexProofs.vo Proofs/NoDeadlockProofs.vo
+Properties/C06.vio: Properties/C06.v Compiler/Compile.vio Proofs/LexProofs.vio Proofs/NoDeadlockProofs.vio
+Properties/C06.vos Properties/C06.vok Properties/C06.required_vos: Properties/C06.v Compiler/Compile.vos Proofs/LexProofs.vos Proofs/NoDeadlockProofs.vos
 Proofs/EmitProofs.vo Proofs/EmitProofs.glob Proofs/EmitProofs.v.beautified Proofs/EmitProofs.required_vo: Proofs/EmitProofs.v Compiler/Emit.vo
 Proofs/EmitProofs.vio: Proofs/EmitProofs.v Compiler/Emit.vio
 Proofs/EmitProofs.vos Proofs/EmitProofs.vok Proofs/EmitProofs.required_vos: Proofs/EmitProofs.v Compiler/Emit.vos
